@@ -176,7 +176,7 @@ func GenHostileReq() *rapid.Generator[Req] {
 			r.Body = BS(pick(t, "body", hostileBodies))
 		case "rewrite":
 			r.Method = "POST"
-			r.Path = "/storage/v1/b/" + b + "/o/" + esc + pick(t, "rw", []string{"/rewriteTo/b/bkt/o/dst", "/rewriteTo/b/bkt", "/rewriteTo/b/", "/rewriteTo/b/bkt/o/", "/rewriteTo/b/bkt/o/x/rewriteTo/b/b2/o/y", "/rewriteTo/", "/copyTo/b/bkt/o/dst"})
+			r.Path = "/storage/v1/b/" + b + "/o/" + esc + pick(t, "rw", []string{"/rewriteTo/b/bkt/o/dst", "/rewriteTo/b/" + b + "/o/" + esc, "/rewriteTo/b/bkt/o/a", "/rewriteTo/b/bkt", "/rewriteTo/b/", "/rewriteTo/b/bkt/o/", "/rewriteTo/b/bkt/o/x/rewriteTo/b/b2/o/y", "/rewriteTo/", "/copyTo/b/bkt/o/dst"})
 			r.Body = BS(pick(t, "body", []string{"", "{}", "null"}))
 		case "batch":
 			r.Method, r.Path = "POST", "/batch/storage/v1"
